@@ -18,7 +18,8 @@ STUBS_ASM = [
     'asm.bytearray/bytes/len: concatenation and length of symbolic byte strings',
     'asm.type: a symbolic integer reports the module\'s int',
     'asm.REGISTERS: the real dict; a symbolic key forks on membership in its integer keys and maps through its values',
-    'asm.int: an @NAME@ token parses to the symbolic integer NAME (CPython literal parsing is not repository code)',
+    'asm.int / asm.eval: a stand-alone @NAME@ token parses / evaluates to the symbolic integer NAME (CPython literal parsing is not repository code)',
+    'str(symbolic int) is a token that asm.int/asm.eval map back to the same value (eval(str(n)) == n)',
     'asm.log_conversion/log_constant/log: no-ops',
 ]
 
@@ -67,11 +68,13 @@ class FuncProfile:
                 self.seen.add(os.path.basename(co.co_filename)[:-3] + '.' + getattr(co, 'co_qualname', co.co_name))
 
     def __enter__(self):
-        sys.setprofile(self._cb)
+        if not os.environ.get('VERIF_NOPROF'):
+            sys.setprofile(self._cb)
         return self
 
     def __exit__(self, *a):
-        sys.setprofile(None)
+        if not os.environ.get('VERIF_NOPROF'):
+            sys.setprofile(None)
 
     def names(self):
         return sorted(n for n in self.seen if '<' not in n.split('.')[-1] or 'inner' in n)
